@@ -29,7 +29,9 @@ from vlib.core import Result, hio_frame
 
 PID = "C16"
 RULE = ("cases: target in {wsgi server, bare server, client, TLS client} x (valid generated message + 1-3 mutations | arbitrary "
-        "bytes) x fragmentation. non-trivial = a mutated valid message whose first line is still a valid start line (the "
+        "bytes) x fragmentation; plus a complete enumeration of every listed near-valid value (chunk sizes, Content-Length values, "
+        "targets, start lines, a byte >= 0x80 or NUL at 3 positions of each of the first 4 head lines) alone on a canonical "
+        "message x target x {whole, byte-at-a-time}. non-trivial = a mutated valid message whose first line is still a valid start line (the "
         "parser gets beyond the start line); distinct = canonical hash of the case")
 ASSUMPTIONS = ["the WSGI application is a well-behaved echo application", "redirect targets resolve to in-memory connectors "
                "(clienting.tcp.Client / ClientTls are replaced by fake connectors inside the check process)"]
@@ -295,6 +297,47 @@ def mutation(kind):
                              st.sampled_from([None, "/other", "http://127.0.0.1:8080/y", "http://otherhost:81/z",
                                               "https://127.0.0.1:8080/s", "http://[::1/x", "http://h:99999/", "", "?q=1", "//x"]))]
     return st.one_of(*common).map(list)
+
+
+def _bases(kind):
+    if kind == "req":
+        common = {"t": "req", "method": "POST", "target": "/p?q=1", "version": "HTTP/1.1", "headers": [["Host", "x"], ["X-A", "b"]],
+                  "eol": "crlf", "conn": None}
+    else:
+        common = {"t": "resp", "version": "HTTP/1.1", "status": 200, "reason": "OK", "headers": [["X-A", "b"]], "eol": "crlf",
+                  "conn": None, "pre100": False, "reqmethod": "GET"}
+    chunked = dict(common, frame="chunked", body=b"hello world", sizes=[5], exts=[], trailers=[], hexupper=False, lz=0)
+    plain = dict(common, frame="len", body=b"hello")
+    return chunked, plain
+
+
+def enumerate_cases(tier, shard, nshards):
+    """Every listed near-valid value at its structural position, for every service loop (complete for these lists)."""
+    def cells():
+        k = 0
+        for target in ("wsgi", "bare", "client", "client-tls"):
+            kind = "resp" if target.startswith("client") else "req"
+            chunked, plain = _bases(kind)
+            muts = [(chunked, ["chunksize", v]) for v in BAD_SIZES]
+            muts += [(plain, ["cl", v]) for v in BAD_CL + ["\xb9\xb9", "2\xb2"]]
+            if kind == "req":
+                muts += [(plain, ["target", v]) for v in BAD_TARGETS]
+                muts += [(plain, ["startline", v]) for v in BAD_STARTS_REQ]
+            else:
+                muts += [(plain, ["startline", v]) for v in BAD_STARTS_RESP]
+            for base in (chunked, plain):
+                for line in range(4):
+                    for pos in (0, 2, 9):
+                        for byte in (0x80, 0xe9, 0xff, 0x00):
+                            for repl in (False, True):
+                                muts.append((base, ["hiline", line, pos, byte, repl]))
+            for base, m in muts:
+                for cuts in ({"mode": "random", "points": []}, {"mode": "every", "k": 1}):
+                    if k % nshards == shard:
+                        yield {"target": target, "base": base, "muts": [m], "raw": b"", "cuts": cuts, "sib_at": k % 4,
+                               "close_a": bool(k % 2), "dictable": bool((k // 2) % 2)}
+                    k += 1
+    return [("listed near-valid values x position x service loop", cells(), True)]
 
 
 def case_strategy(target):
